@@ -185,3 +185,44 @@ Definition answers (s : state) : list (nat * answer) :=
 (** no move of the schedule takes a Timeout branch *)
 Definition no_give_up (sch : list move) : bool :=
   forallb (fun m : move => negb (snd (fst m))) sch.
+
+(* ------------------------------------------------------------------------- *)
+(** * the Timeout scenario replayed against the real FileLock                  *)
+(* ------------------------------------------------------------------------- *)
+
+(** harness/props/c12.py drives the real code through this schedule (a helper
+    process holds .status.lock meanwhile) and compares what it saw with what the
+    model says:
+      process 0 = the holder (modelled as a reader that stays in the critical
+                  section), process 1 = [Conductor.get_status] three times,
+      process 2 = [write_status] of the new table twice.
+      1. the holder takes the lock;  2. get_status -> Timeout -> {};
+      3. write_status -> Timeout -> nothing written;   (snapshot of the file)
+      4. the holder leaves;  5. get_status -> the OLD table;
+      6. write_status writes;  7. get_status -> the NEW table. *)
+Definition scenario_progs (new_chunks : list str) (i : nat) : list job :=
+  match i with
+  | 0 => [JRead]
+  | 1 => [JRead; JRead; JRead]
+  | 2 => [JWrite new_chunks; JWrite new_chunks]
+  | _ => []
+  end.
+
+Definition scenario_part1 : list move :=
+  [(0, false, 0); (0, false, 0);            (* holder: exists?; acquire *)
+   (1, false, 0); (1, true, 0);             (* reader: exists?; Timeout *)
+   (2, false, 0); (2, true, 0)].            (* writer: job; Timeout *)
+
+Definition scenario_part2 (old : str) (new_chunks : list str) : list move :=
+  let big := List.length old + List.length (List.concat new_chunks) in
+  [(0, false, 0); (0, false, big); (0, false, 0)]                             (* holder leaves *)
+  ++ [(1, false, 0); (1, false, 0); (1, false, 0); (1, false, big); (1, false, 0)]
+  ++ repeat (2, false, 0) (4 + List.length new_chunks)
+  ++ [(1, false, 0); (1, false, 0); (1, false, 0); (1, false, big); (1, false, 0)].
+
+(** (what process 1's three calls returned, the file after step 3, the file at the end) *)
+Definition scenario_model (old : str) (new_chunks : list str)
+  : list answer * option str * option str :=
+  let s1 := run locked scenario_part1 (init (Some old) (scenario_progs new_chunks)) in
+  let s2 := run locked (scenario_part2 old new_chunks) s1 in
+  (map snd (filter (fun ia => Nat.eqb (fst ia) 1) (answers s2)), file s1, file s2).
